@@ -39,5 +39,42 @@ for sid in sorted(det):
     finally:
         subprocess.run(['git', '-C', '/repo', 'worktree', 'remove', '--force', wt], capture_output=True)
         shutil.rmtree(wt, ignore_errors=True)
-print(f'SELFTEST property={prop}: {n} seeded change(s) re-checked, {bad} not detected')
+# every repaired defect must be reported again when its fix is reverted
+kf = json.load(open(os.path.join(here, 'known_findings.json')))
+seen = set()
+m = 0
+for f in kf.get('findings', []):
+    if f.get('status') != 'fixed' or f.get('property') != prop or f.get('commit') in seen:
+        continue
+    seen.add(f['commit'])
+    rev = subprocess.run(['git', '-C', '/repo', 'diff', f['commit'], f['commit'] + '^'], capture_output=True, text=True)
+    if rev.returncode != 0 or not rev.stdout.strip():
+        print(f'SELFTEST property={prop} fix={f["commit"]} skipped (commit not in /repo history)')
+        continue
+    wt = tempfile.mkdtemp(prefix='selftest.', dir=os.environ.get('TMPDIR', '/tmp'))
+    try:
+        subprocess.check_call(['git', '-C', '/repo', 'worktree', 'add', '-q', '--detach', wt, 'HEAD'])
+        diff = subprocess.run(['git', '-C', '/repo', 'diff', 'HEAD'], capture_output=True, text=True).stdout
+        if diff.strip():
+            subprocess.run(['git', '-C', wt, 'apply'], input=diff, text=True)
+        ap = subprocess.run(['git', '-C', wt, 'apply'], input=rev.stdout, capture_output=True, text=True)
+        if ap.returncode != 0:
+            print(f'SELFTEST property={prop} fix={f["commit"]} skipped (reverse patch does not apply to the current tree)')
+            continue
+        bld = subprocess.run(['go', 'build', './...'], cwd=wt, capture_output=True, text=True, env=env)
+        if bld.returncode != 0:
+            print(f'SELFTEST property={prop} fix={f["commit"]} skipped (reverted tree does not build)')
+            continue
+        m += 1
+        out = subprocess.run([os.path.join(here, 'bin/fdocheck'), '-no-write', '-repo', wt, prop], capture_output=True, text=True, env=env)
+        rules = sorted({l.split('rule=')[1].strip() for l in out.stdout.splitlines() if l.strip().startswith('rule=')})
+        if out.returncode == 1 and f['rule'] in rules:
+            print(f'SELFTEST property={prop} fix={f["commit"]} reverted: reported again by {f["rule"]}')
+        else:
+            bad += 1
+            print(f'CHECK-FAILURE property={prop} selftest: reverting fix {f["commit"]} is not reported by {f["rule"]} (exit {out.returncode}, rules {rules})')
+    finally:
+        subprocess.run(['git', '-C', '/repo', 'worktree', 'remove', '--force', wt], capture_output=True)
+        shutil.rmtree(wt, ignore_errors=True)
+print(f'SELFTEST property={prop}: {n} seeded change(s) and {m} reverted fix(es) re-checked, {bad} not detected')
 sys.exit(2 if bad else 0)
